@@ -110,8 +110,9 @@ def run_job(job):
                 acc.m3_seen = True
                 info["m3_verdict"] = world.check_m3(items)
             m4 = case["m4"]
-            return T.enc({"ok": [(T.STATE, b"\x04")], "wrong": [(T.STATE, b"\x02")], "empty": [(T.STATE, b"")],
-                          "trailing": [(T.STATE, b"\x04\xff")], "auth": [(T.STATE, b"\x04"), (T.ERROR, b"\x02")]}[m4])
+            fixed = {"ok": [(T.STATE, b"\x04")], "wrong": [(T.STATE, b"\x02")], "empty": [(T.STATE, b"")],
+                     "trailing": [(T.STATE, b"\x04\xff")]}
+            return T.enc(fixed[m4] if m4 in fixed else [(T.STATE, b"\x04"), (T.ERROR, K.error_value(m4))])
         return None
 
     acc = D.ScriptedAccessory(ident=ident, hook=hook)
@@ -278,7 +279,8 @@ def _jobs(ctx, cases, lens):
                 trs.append("ble")
         else:
             eligible = not (c["verdict"] == "ok" and r["pub"] != "eA")      # transports need the eA accessory on success
-            if eligible and (near or (c["dist"] == 2 and (ctx.thorough or rng.random() < 0.5))
+            errval = r["err"] not in ("none", "auth") or c["m4"] not in ("ok", "wrong", "auth", "empty", "trailing")
+            if eligible and (near or errval or (c["dist"] == 2 and (ctx.thorough or rng.random() < 0.5))
                              or (ctx.thorough and rng.random() < 0.05)):
                 trs += ["ip", "coap", "ble"]
         for tr in trs:
